@@ -257,6 +257,11 @@ macro_rules! common_sync {
         pub fn ft(id: u32) -> impl FnOnce(W) -> W + Send + 'static {
             super::g::ft::<W>(id)
         }
+        /// `-> defer` at the end of a step: with `lazy_branches(false)` a thread-spawning macro hands the
+        /// branch expression itself to the thread, so the expression has to be the closure
+        pub fn defer(w: W) -> impl FnOnce() -> W + Send + 'static {
+            move || w
+        }
         /// `-> tt(ID)` on a bare token inside a wrapper
         pub fn tt(id: u32) -> impl FnOnce(Tok) -> Tok + Send + 'static {
             super::g::fm(id)
